@@ -1,10 +1,11 @@
 use crate::common::Ctx;
 
 pub mod c01;
+pub mod c02;
 pub mod c06;
 pub mod c07;
 pub mod c07_wiring;
 pub mod c08;
 pub mod c17;
 
-pub const REGISTRY: &[(&str, fn(&Ctx) -> !)] = &[("C01", c01::run), ("C06", c06::run), ("C07", c07::run), ("C08", c08::run), ("C17", c17::run)];
+pub const REGISTRY: &[(&str, fn(&Ctx) -> !)] = &[("C01", c01::run), ("C02", c02::run), ("C06", c06::run), ("C07", c07::run), ("C08", c08::run), ("C17", c17::run)];
